@@ -181,6 +181,8 @@ func (p *Path) prim(fn *ssa.Function, args []Value) Value {
 		return p.predVar(name, x)
 	case "vConcretizeStr":
 		return p.concretizeStr(args[0])
+	case "vSeed":
+		return int64(0)
 	case "vDepth":
 		return int64(p.depth)
 	case "vSteps":
